@@ -143,4 +143,33 @@ example : parserErr (parseTextE {} [123, 97, 40, 120, 58]) = some (5, true) := b
 /-- the excluded case is real: `"\` is rejected by the LEXER at len + 1 (L6) -/
 example : (match parseTextE {} [34, 92] with | .error (.lex e) => e.pos | _ => 0) = 3 := by decide
 
+/-! ### (c) viable prefixes: the full statement is FALSE on today's code
+
+  "The error position is the end of the longest token prefix that can still be extended to an accepted document."
+  Five of the seven `parse_*_type_extension` methods raise at `self.peek()` (the offending token), but
+  `parse_scalar_type_extension` raises at `start` (the `extend` keyword) and `parse_input_object_type_extension`
+  at `start.start`: for `extend scalar A` the reported position is 0 although `extend scalar A` (up to offset 15)
+  is a viable prefix (`extend scalar A @d` is accepted).  The position is still INSIDE the text
+  (`parse_error_in_range`), so no clause of C01 is violated; the model follows the code (positions compared by the
+  correspondence on every rejected input). -/
+
+/-- FULL STATEMENT (one half): no token of a viable prefix lies at or after the reported error position -/
+def ViablePrefixStatement : Prop :=
+  ∀ (fl : Flags) (toks : List Tok) (e : SynErr), parseDocument fl toks = .error e →
+    ∀ pre t post suf, toks = pre ++ t :: post → (parseDocument fl (pre ++ t :: suf)).toBool = true → t.start < e.pos
+
+private def tk (k : TokKind) (s e : Nat) (v : Text := []) : Tok := { kind := k, start := s, stop := e, value := v }
+
+/-- refutation witness (also the replay on the implementation: `parse("extend scalar A", allow_type_system=True)`
+    raises at position 0): the token `scalar` at 7 belongs to the viable prefix `extend scalar` (completed by `A @d`),
+    yet the error is reported at 0 -/
+theorem viable_prefix_refuted : ¬ ViablePrefixStatement := by
+  intro h
+  have := h { allowTypeSystem := true }
+    [tk .sof 0 0, tk .name 0 6 K.extend, tk .name 7 13 K.scalar, tk .name 14 15 [65], tk .eof 15 15]
+    ⟨0, "Unexpected token", false⟩ (by rfl)
+    [tk .sof 0 0, tk .name 0 6 K.extend] (tk .name 7 13 K.scalar) [tk .name 14 15 [65], tk .eof 15 15]
+    [tk .name 14 15 [65], tk .atSign 16 17, tk .name 17 18 [100], tk .eof 18 18] rfl (by decide)
+  simp [tk] at this
+
 end PyGql.Props.C01
